@@ -274,6 +274,7 @@ pub fn check_aimed(tape: &[u16], rc: &mut RCase) -> Result<(), Failure> {
             vec![rgen::ROut { name: None, party: 0, terms: vec![], change: true }]
         },
         collateral: None,
+            references: vec![],
         store: vec![rgen::SUtxo { id: 0, party: 0, lovelace: funding, token: 0 }],
         n_parties: 2,
     };
